@@ -332,6 +332,37 @@ class Sim:
         return self.outcome
 
 
+class NullSim:
+    '''Bookkeeping object for simulated executions that have no threads
+    (crash-point / fault-sequence histories): same reporting surface as
+    ``Sim``.'''
+
+    def __init__(self):
+        self.hasher = hashlib.blake2b(digest_size=12)
+        self.steps = 0
+        self.switches = 0
+        self.preempts = []
+        self.ndecisions = 0
+        self.zombies = 0
+        self.probe_hits = {}
+        self.unsupported = None
+        self.outcome = ('ok', None)
+        self.max_runnable = 1
+        self.clock = 0.0
+        self.t0 = 0.0
+        self.nontrivial = False
+
+    def event(self, *ev):
+        self.steps += 1
+        self.hasher.update(repr(ev).encode())
+
+    def digest(self):
+        return self.hasher.hexdigest()
+
+    def hit(self, name, n=1):
+        self.probe_hits[name] = self.probe_hits.get(name, 0) + n
+
+
 class SimThread:
     '''Stand-in for ``threading.Thread``.'''
 
